@@ -86,7 +86,7 @@ def render_descr(rng, parent, fgs, bgs, mods):
     return colstr + (":" + modstr if modstr else "")
 
 
-def gen_set(rng, prefix):
+def gen_set(rng, prefix, dangling=False):
     n = rng.randint(2, 8)
     ids = [prefix + ("S%d" % i if rng.random() < 0.6 else "G%d.I%d" % (i % 2, i)) for i in range(n)]
     late_missing = prefix + "MISSING.X"
@@ -105,6 +105,12 @@ def gen_set(rng, prefix):
                 mods[e] = False
         items[sid] = dict(parent=parent, fg=fg, bg=bg, mods=mods,
                           descr=render_descr(rng, parent, fgs, bgs, mods), initial_only=False)
+    if dangling:
+        # an item whose parent is never registered: something stays pending during the whole history
+        items[prefix + "DANGLING"] = dict(parent=prefix + "NEVER.REGISTERED", fg=('c', 1), bg='inherit', mods={},
+                                          descr=prefix + "NEVER.REGISTERED:RED", initial_only=rng.random() < 0.5)
+        items[prefix + "DANGLING2"] = dict(parent=prefix + "DANGLING", fg='inherit', bg=('c', 4), mods={'bold': True},
+                                           descr=prefix + "DANGLING:/BLUE:bold", initial_only=rng.random() < 0.5)
     if rng.random() < 0.25:
         # the explicit configuration overrides a built-in id
         b = rng.choice(list(BUILT))
@@ -325,14 +331,14 @@ def run_shard(ctx):
             mode = "local"   # registry not found: keep the number of synced palettes in this process small
         _UNIQ[0] += 1
         prefix = "U%dx" % _UNIQ[0] if mode == "global" else ""
-        items = gen_set(rng, prefix)
+        items = gen_set(rng, prefix, dangling=(mode == "global" and rng.random() < 0.7))
         for trial in range(3):
             ctx.evaluated()
             if mode == "global" and trial:
                 # synced palettes of earlier histories stay registered process-wide and would
                 # re-register their defaults first: ids must be fresh for every global history
                 _UNIQ[0] += 1
-                items = gen_set(rng, "U%dx" % _UNIQ[0])
+                items = gen_set(rng, "U%dx" % _UNIQ[0], dangling=rng.random() < 0.7)
             plan = make_plan(rng, items, mode)
             case = {"items": items, "plan": plan, "mode": mode}
             run_history(ctx, items, plan, mode, case)
